@@ -24,6 +24,7 @@ func propC20() Property {
 			{ID: "C20-R3", Desc: "timeout → effect table", Min: 5, Run: c20R3},
 			{ID: "C20-R4", Desc: "pending wrapper transparency", Min: 2, Run: c20R4},
 			{ID: "C20-R5", Desc: "HeartBtInt adoption guard", Min: 1, Run: c20R5},
+			{ID: "C20-R6", Desc: "the recovery state's Timeout keeps the recovery state (also inside the pending wrapper)", Min: 3, Run: c20R6},
 		},
 	}
 }
@@ -370,5 +371,90 @@ func c20R5(c *Ctx) {
 	}
 	if n == 0 {
 		c.Violation("", "-", "no-adoption", "the acceptor never adopts the HeartBtInt announced in the peer's Logon")
+	}
+}
+
+// C20-R6: a state that delegates Timeout to the in-session handler (the recovery state) keeps
+// itself: the delegate's own result is handed on only when it is neither the in-session state
+// nor the pending-timeout wrapper (those two are replaced by the receiver, resp. by a pending
+// wrapper around the receiver); otherwise a PeerTimeout during recovery would drop the recovery
+// state and its stash, and the inbound message that cancels the pending disconnect would be
+// handled by plain in-session, sending a second ResendRequest.
+func c20R6(c *Ctx) {
+	p := c.P
+	inSess := p.Named(modPath, "inSession")
+	pend := p.Named(modPath, "pendingTimeout")
+	n := 0
+	for _, fn := range p.FuncsIn(modPath) {
+		if fnName(fn) != "Timeout" || fn.Signature.Recv() == nil || types.Identical(fn.Signature.Recv().Type(), inSess) || types.Identical(fn.Signature.Recv().Type(), pend) {
+			continue
+		}
+		// the delegate call: Timeout of the in-session state
+		var del *ssa.Call
+		ForEachInstr(fn, func(in ssa.Instruction) {
+			if cl, ok := in.(*ssa.Call); ok {
+				if cal := cl.Call.StaticCallee(); cal != nil && fnName(cal) == "Timeout" && cal.Signature.Recv() != nil && types.Identical(cal.Signature.Recv().Type(), inSess) {
+					del = cl
+				}
+			}
+		})
+		if del == nil {
+			continue
+		}
+		name := FuncName(fn)
+		for _, b := range fn.Blocks {
+			ret, ok := b.Instrs[len(b.Instrs)-1].(*ssa.Return)
+			if !ok || len(ret.Results) != 1 {
+				continue
+			}
+			for _, alt := range p.valueAlternatives(ret.Results[0], b, 0) {
+				n++
+				v := alt.val
+				if mi, ok := v.(*ssa.MakeInterface); !ok || mi == nil {
+					v = stripConv(alt.val)
+				}
+				switch x := v.(type) {
+				case *ssa.MakeInterface:
+					tn := typeName(x.X.Type())
+					if tn == "pendingTimeout" {
+						// the wrapped state must be the receiver
+						okW := false
+						{
+							// look at the literal's field store
+							if ld, isLd := x.X.(*ssa.UnOp); isLd {
+								if al, isAl := ld.X.(*ssa.Alloc); isAl {
+									for _, ref := range *al.Referrers() {
+										if fa, isFA := ref.(*ssa.FieldAddr); isFA {
+											for _, r2 := range *fa.Referrers() {
+												if st, isSt := r2.(*ssa.Store); isSt && p.Origin(st.Val).Kind == "param" && p.Origin(st.Val).Param == 0 {
+													okW = true
+												}
+											}
+										}
+									}
+								}
+							}
+						}
+						c.Check(okW, name, p.InstrPos(ret), "pending-wraps-receiver", "the pending wrapper wraps the recovering state itself", "the pending-timeout wrapper returned during recovery does not wrap the recovery state: the message that cancels the pending disconnect is handled without the recovery state and its stash")
+					} else {
+						c.OK(name, p.InstrPos(ret), "returns "+tn)
+					}
+				default:
+					if v == ssa.Value(del) {
+						okT := alt.cond.Implies(func(a *Atom) bool {
+							return a.Rel == "" && !a.Val && a.B.Kind == "typeassert" && a.B.Res == 1 && types.Identical(a.B.AssTyp, inSess)
+						}) && alt.cond.Implies(func(a *Atom) bool {
+							return a.Rel == "" && !a.Val && a.B.Kind == "typeassert" && a.B.Res == 1 && types.Identical(a.B.AssTyp, pend)
+						})
+						c.Check(okT, name, p.InstrPos(ret), "delegate-result-passed-on", "the delegate's result is passed on only when it is neither in-session nor pending-timeout", "the in-session handler's Timeout result is returned as it is under "+alt.cond.String()+": when it is the pending-timeout wrapper (or in-session) the recovery state and its stash are dropped, and the next inbound message triggers a second ResendRequest")
+					} else {
+						c.OK(name, p.InstrPos(ret), "returns "+p.Origin(v).String())
+					}
+				}
+			}
+		}
+	}
+	if n == 0 {
+		c.Violation("", "-", "no-delegating-timeout", "no state delegates Timeout to the in-session handler (the recovery state's handler was not found)")
 	}
 }
